@@ -1,5 +1,6 @@
 import LdkModel.Driver.Util
 import LdkModel.Model.Timing
+import LdkModel.Model.NodeStep
 namespace Ldk.Driver
 open Ldk
 
@@ -14,6 +15,26 @@ def finalHop (h onionCltv htlcCltv : Nat) : Except FailReason Unit :=
   else if finalExpiryTooSoon h htlcCltv then .error .paymentClaimBuffer
   else .ok ()
 
+def parseExit (n : String) : Option BbuExit := BbuExit.all.find? (fun x => x.name == n)
+
+/-- event token: `b:<h>:<exit>:<cConf>:<tConf>` | `p` | `d` -/
+def parseEv (w : String) : Option NodeStep.Ev :=
+  match w.splitOn ":" with
+  | ["p"] => some .preimage
+  | ["d"] => some .downCommitted
+  | ["b", h, x, c, t] => (parseExit x).map (fun x => .block (nat! h) x (c == "1") (t == "1"))
+  | _ => none
+
+/-- `node <inCltv> <outCltv> <monBest> <inCell> <outLive> <upResponsive> ev…`: run `NodeStep.run`, print the log -/
+def nodeRun (ic oc best cell live resp : String) (evs : List String) : String :=
+  match evs.mapM parseEv with
+  | none => "bad-op"
+  | some es =>
+    let s0 : NodeStep.St := { inCltv := nat! ic, outCltv := nat! oc, monBest := nat! best, inCell := cell == "1",
+                              outLive := live == "1", upResponsive := resp == "1" }
+    let log := (NodeStep.run s0 es).2
+    if log.isEmpty then "-" else " ".intercalate (log.map (fun (h, a) => toString h ++ ":" ++ a.name))
+
 def c08 : Drv where
   σ := Unit
   init := ()
@@ -27,6 +48,8 @@ def c08 : Drv where
     | ["mpptimeout", h, c] => ((), toString (mppOnchainTimeout (nat! h) (nat! c)))
     | ["e2e_close", oc] => ((), toString (Timing.outboundTrigger (nat! oc)))
     | ["e2e_failback", ic] => ((), toString (nat! ic - LATENCY_GRACE_PERIOD_BLOCKS))
+    | "node" :: ic :: oc :: best :: cell :: live :: resp :: evs => ((), nodeRun ic oc best cell live resp evs)
+    | ["bbuexit", x] => ((), match parseExit x with | some x => toString x.isOk ++ " " ++ toString x.returnsTimedOut | none => "bad-op")
     | ["threshold", h] => ((), toString (confirmationThreshold (nat! h) none))
     | _ => ((), "bad-op")
 
